@@ -4,6 +4,8 @@ from mir import callee
 from common import controlling_edges, switch_expr, switch_meaning
 from rtc_common import *  # noqa: F401,F403
 
+THOROUGH_CONFIGS = ["full-codecs", "json-codec", "tests"]
+
 EXPLANATION = (
     "Static MIR rules over the expansion of #[remoc::rtc::remote] (witness crate covering every receiver kind, "
     "cancellable and #[no_cancel] methods, generics and all five server flavours; in the thorough tier also remoc's test "
